@@ -448,7 +448,7 @@ fn required_len(case: &NetCase, g: u8) -> usize {
 
 pub fn c08(tier: &Tier) -> Result<i32, String> {
     let mut rep = Report::new("C08", "exploration", tier);
-    rep.rule = "device shapes enumerated from a grammar: per direction one of 8 sync-manager/PDO layouts (0..=2 sync managers at non-adjacent physical windows, 0..=2 PDOs each, entry bit lengths from {1,7,8,9,16,64}), configured from EEPROM or from CoE assignment objects, with/without FMMU_EX, oversampling 1 or 2 on the first PDO; all single-device networks, pairs and triples of representative shapes in every split over 1..=3 groups; image capacity = the smallest instantiated size that fits, and the largest that does not; end-to-end oracle: tagged patterns through one tx_rx cycle compared with the devices' process memory and input windows; structural clauses from the FMMU registers programmed into the devices; non-trivial = every network".into();
+    rep.rule = "device shapes enumerated from a grammar: per direction one of 10 sync-manager/PDO layouts (0..=2 sync managers at non-adjacent physical windows, 0..=2 PDOs each, entry bit lengths from {1,3,4,7,8,9,12,16,64}, including two sync managers that both end inside a byte), configured from EEPROM or from CoE assignment objects, with/without FMMU_EX, oversampling 1 or 2 on the first PDO; all single-device networks, pairs and triples of 7 representative shapes in every split over 1..=3 groups, pairs and half of the triples of EEPROM-configured shapes also with 44-byte frames (image split over several LRW frames); image capacity = the smallest instantiated size that fits, and the largest that does not; end-to-end oracle: tagged patterns through one tx_rx cycle compared with the devices' process memory and input windows; structural clauses from the FMMU registers programmed into the devices; non-trivial = every network".into();
     rep.assumptions = vec![
         "process-data sync managers are modelled as guarded RAM, FMMUs byte-wise (DESIGN.md appendix E); 16 functional FMMUs/SMs so that the choice of FMMU index is never judged".into(),
         "frame capacity 1100 (one LRW per cycle) and, for pairs and half of the triples, 44 (16 data bytes per LRW, the image is split over several frames)".into(),
